@@ -862,3 +862,49 @@ def long_range_hamiltonian(rng, qd, L, cplx=True):
             chains.append(ptn.OpChain([oN], [0, 0], float(rng.normal()), i))
     g = ptn.OpGraph.from_opchains(chains, L, 0)
     return ptn.MPO.from_opgraph(qd, g, opmap)
+
+
+def add_twin_paths(rng, g, ntwins=None):
+    """
+    Redundancy for the rewrite rules: for a few random paths n_0 -e_1-> n_1 -e_2-> ... -e_k-> n_k (k = 1..3, direction forwards or backwards) add TWIN nodes
+    n_1', ..., n_{k-1}' (labels equal to the originals with probability 0.6, otherwise different) connected by edges with operator lists IDENTICAL to
+    e_1 .. e_{k-1}, the last twin joined to n_k by a copy of e_k or by a fresh operator list. The result is a consistent graph (every twin has an incoming
+    and an outgoing edge) with duplicated path prefixes / suffixes whose nodes may or may not be mergeable. Returns the number of twin paths added.
+    """
+    from .env import ptn
+    nid_next = max(g.nodes) + 1 + int(rng.integers(0, 3))
+    eid_next = (max(g.edges) + 1 + int(rng.integers(0, 3))) if g.edges else 0
+    added = 0
+    for _ in range(int(rng.integers(1, 4)) if ntwins is None else ntwins):
+        direction = int(rng.integers(0, 2))              # 1: follow outgoing edges, 0: follow incoming edges
+        start = g.nodes[list(g.nodes)[int(rng.integers(0, len(g.nodes)))]]
+        path = []
+        node = start
+        for _k in range(int(rng.integers(2, 4))):
+            eids = node.eids[direction]
+            if not eids:
+                break
+            e = g.edges[eids[int(rng.integers(0, len(eids)))]]
+            nxt = g.nodes[e.nids[direction]]
+            path.append((e, nxt))
+            node = nxt
+        if len(path) < 2:
+            continue
+        prev = start
+        for j, (e, nxt) in enumerate(path):
+            last = j == len(path) - 1
+            if last:
+                tgt = nxt
+                opics = list(e.opics) if rng.random() < 0.5 else [(e.opics[0][0], float(rng.choice([-1, .5, 2])))]
+            else:
+                q = nxt.qnum if rng.random() < 0.6 else nxt.qnum + int(rng.choice([-1, 1, 2]))
+                tgt = ptn.OpGraphNode(nid_next, [], [], q)
+                nid_next += int(rng.integers(1, 3))
+                g.add_node(tgt)
+                opics = list(e.opics)
+            ab = [prev.nid, tgt.nid] if direction == 1 else [tgt.nid, prev.nid]
+            g.add_connect_edge(ptn.OpGraphEdge(eid_next, ab, opics))
+            eid_next += int(rng.integers(1, 3))
+            prev = tgt
+        added += 1
+    return added
